@@ -306,8 +306,16 @@ class GGenBT:
             if alts and r.random() < 0.45:
                 pre = list(r.choice(alts)[1][:-1])          # same prefix as an earlier alternative, other tail
                 pre = [x for x in pre if x[0] == "name"] or [r.choice(pool)]
-            if r.random() < 0.25:
-                pre.insert(0, (r.choice(["and", "not"]), ("seq", [r.choice(pool), ("chr", r.choice(ALPHA + [0x7A]))])))
+            if r.random() < 0.35:
+                # lookahead over a sequence whose prefix succeeds (leaving rule, capture and action tokens
+                # behind) before its last element decides: nothing of it may survive the lookahead
+                inner = [r.choice(pool)]
+                if r.random() < 0.4:
+                    inner[0] = ("push", inner[0])
+                if r.random() < 0.6:
+                    inner.append(self.act())
+                inner.append(("chr", r.choice(ALPHA + [0x7A])))
+                pre.insert(0, (r.choice(["and", "not"]), ("seq", inner)))
             tail = ("chr", r.choice([0x78, 0x79, 0x7A]))
             alts.append(("seq", pre + [tail]))
         if r.random() < 0.5:
